@@ -35,7 +35,29 @@ func c18(c *Ctx) {
 	c18R5(c)
 	c18R6(c)
 	bufferOwnershipRule(c, "R7")
+	c18R8(c)
 }
+
+// c18R8: the varint reader accepts everything the writer emits.
+func c18R8(c *Ctx) {
+	rule := c.R.Rule("R8", "reader accepts the writer's range: ReadVarint/GetVarint/ReadUvarint/GetUvarint reject an input only for its size byte or a read error; no branch tests the decoded magnitude (binary.BigEndian.Uint64 of the payload) — WriteVarint emits every int, including MinInt64 whose magnitude is 2^63", 4)
+	for _, name := range []string{"ReadVarint", "GetVarint", "ReadUvarint", "GetUvarint"} {
+		f := c.Anchor(rule, "gemmill/go-wire."+name)
+		if f == nil {
+			continue
+		}
+		bad := ""
+		for _, b := range f.F.Blocks {
+			for _, ins := range b.Instrs {
+				if iff, ok := ins.(*ssa.If); ok && f.Live(ins) && strings.Contains(exprOf(iff.Cond), ".Uint64(") {
+					bad = shorten(exprOf(iff.Cond))
+				}
+			}
+		}
+		c.R.Ob(rule, name+":no-branch-on-decoded-magnitude", bad == "", c.P.Pos(f.F.Pos()), fname(f), "a value-dependent rejection makes the node unable to decode values its own encoder produces: "+bad)
+	}
+}
+
 
 // c18R6: decoded slices do not alias earlier chunks.
 func c18R6(c *Ctx) {
